@@ -118,6 +118,7 @@ WITNESSES = [
     ["myint", 5], ["mystr", "s"],                                                                        # scalar subclass
     ["mydefaultdict", "list", [[["str", "a"], ["int", 1]]]],                                             # defaultdict subclass
     ["mytuple", [["int", 1], ["int", 2]]],                                                               # tuple subclass
+    ["list", [["mybytes", "MyBytes", "6162"], ["mybytes", "MyByteArray", "0102"], ["mybytes", "np.bytes_", "6162"]]],   # bytes / bytearray subclasses (C04-F5, repaired)
     ["strcp", [55357, 56832]],                                                                           # surrogate pair joined
     ["dict", [[["int", 1], ["property"]], [["str", "b"], ["int", 2]]]],                                  # D26 with misaligned key types: load raises
     ["dict", [[["none"], ["int", 1]]]],                                                                  # None key: load raises (a refusal)
